@@ -164,7 +164,7 @@ def toSourceColumns (importDefault : String) (m : AliasMap) (c : ColSpec) (revSt
   -- `set(alias_mapping.values())` is iterated in hash order; `revStar` selects which order (C11 / D16); 0 = model order
   let amValues := fun (m : AliasMap) => permK revStar (amValues m)
   c.srcs.foldl (fun acc sq =>
-    let name := Ident.escapeS sq.1       -- `Column(name)` normalises again
+    let name := sq.1       -- `Column._from_raw_name(name)`: the already normalised name is kept as it is
     match sq.2 with
     | none =>
       if sq.1 == "*" then
@@ -236,7 +236,7 @@ def replaceWildcard (g : LGraph) (tgt : DS) (srcCols : List Column) (tgtWild src
   let tp := (tgt, printedDS g tgt)
   let existing := (getTableColumns g tgt).map (·.key)       -- computed once, before the loop
   let g := srcCols.foldl (fun g sc =>
-    let nc := Column.mk1 (Ident.escapeS sc.raw) (some tp)
+    let nc := Column.mk1 sc.raw (some tp)        -- `Column._from_raw_name(src_col.raw_name)`
     if existing.contains nc.key || sc.raw == "*" then g
     else
       let g := g.addEdge (.ds tgt) nc.key .hasColumn none none (some (.col nc))
@@ -251,7 +251,8 @@ def expandWildcard (p : ProvView) (g : LGraph) : LGraph :=
   match targetTable? g with
   | none => g
   | some tgt =>
-    (writeColumns g).foldl (fun g wn =>
+    -- write columns are `Column` objects (column nodes)
+    ((writeColumns g).filter Node.isCol).foldl (fun g wn =>
       match colOf g wn with
       | some wc =>
         if wc.raw == "*" then
